@@ -686,6 +686,49 @@ theorem embedQ_frame (st : St α) (gs : List (BPoly α)) (dst src : Nat) (red : 
     | none => exact St.Frame.refl st
     | some v => exact St.Frame.setB st dst _ (by simp)
 
+/-! ### C17-3 for the in-place operations `Reduce`: a tainted register stays tainted -/
+
+/-- `ireduce` never clears an error: every bivariate register that carries an error before carries one after
+    (also the reduced register `k` itself — an erroneous polynomial is not reduced at all) -/
+theorem ireduce_keeps_taint (st : St α) (n k k' : Nat) (ht : TaintedB st k') :
+    TaintedB (ireduceOp env st n k).1 k' := by
+  rcases ireduce_polys_unchanged_or_ok env st n k with h | ⟨v, h, _, he, _⟩
+  · unfold TaintedB; rw [h]; exact ht
+  · obtain ⟨r, hr, hi⟩ := ht
+    by_cases hk : k' = k
+    · subst hk
+      rw [bGet_of_getL hr] at he
+      rw [he] at hi
+      exact absurd hi (by simp)
+    · exact ⟨r, by rw [h, St.getL_setL_ne _ _ hk]; exact hr, hi⟩
+
+theorem uireduce_keeps_taint (st : St α) (j k k' : Nat) (gens : List (UPoly α)) (ht : TaintedU st k') :
+    TaintedU (uireduceOp env st j gens k).1 k' := by
+  rcases uireduce_unchanged_or_ok env st j k gens with h | ⟨g, v, _, _, he, _, _, h⟩
+  · rw [h]; exact ht
+  · obtain ⟨r, hr, hi⟩ := ht
+    by_cases hk : k' = k
+    · subst hk
+      rw [uGet_of_getL env hr] at he
+      rw [he] at hi
+      exact absurd hi (by simp)
+    · rw [h]
+      exact ⟨r, by rw [St.getL_setL_ne _ _ hk]; exact hr, hi⟩
+
+/-- `spoly` and `embed@3` are value-returning: registers other than `dst` keep their taint (frame); `dst` itself
+    receives a clean polynomial from `spoly` (`spoly_unchanged_or_ok`: no `err` field is set) and the source's
+    error status from `embed@3` (`embedQ_sticky`) -/
+theorem spoly_keeps_taint (st : St α) (dst a b k' : Nat) (hk : k' ≠ dst) (ht : TaintedB st k') :
+    TaintedB (spolyOp env st dst a b).1 k' := by
+  obtain ⟨r, hr, hi⟩ := ht
+  exact ⟨r, by rw [(spoly_frame env st dst a b).bs k' (by simpa using hk)]; exact hr, hi⟩
+
+theorem embedQ_keeps_taint (st : St α) (gs : List (BPoly α)) (dst src : Nat) (red : Bool) (k' : Nat)
+    (hk : k' ≠ dst) (ht : TaintedB st k') :
+    TaintedB (embedQOp env st gs dst src red).1 k' := by
+  obtain ⟨r, hr, hi⟩ := ht
+  exact ⟨r, by rw [(embedQ_frame env st gs dst src red).bs k' (by simpa using hk)]; exact hr, hi⟩
+
 /-! ### non-vacuity and sanity (GF(5); `env5q`, store `sX` of Proofs/Extra.lean: univariate ring 1 = GF(5)[X]/(X²+1),
     bivariate ring 1 = GF(5)[X,Y]/(Y²); p0 clean, p1 erroneous (Parsing), p2 of ring 2; q0 = X+2Y, q1 = Y², q2 erroneous
     (Parsing), q3 = XY of ring 1, q4 = 0, q5 = XY²+1; i0 = ⟨X+2Y, Y²⟩, i1 = ⟨XY+1, Y²⟩, i2 = ⟨Y²⟩ flagged Gröbner; GF(9): `env9`) -/
@@ -779,5 +822,13 @@ example : (embedQOp env5q sX [[((0, 2), 1)]] 9 2 true).2 = "ok !Parsing" := by d
 -- `escr`, `tcheck`
 example : (escrOp env5q sX 0).2 = "ok 5" := by decide
 example : (tcheckOp env9 {} 0).2 = "ok 0 of 9" := by decide
+
+-- taint
+example : TaintedB sX 2 := ⟨_, rfl, rfl⟩
+example : TaintedU sX 1 := ⟨_, rfl, rfl⟩
+example := ireduce_keeps_taint env5q sX 0 2 2 ⟨_, rfl, rfl⟩
+example := uireduce_keeps_taint env5q sX 0 1 1 [[1, 0, 1]] ⟨_, rfl, rfl⟩
+example := spoly_keeps_taint env5q sX 9 0 1 2 (by decide) ⟨_, rfl, rfl⟩
+example := embedQ_keeps_taint env5q sX [[((0, 2), 1)]] 9 5 true 2 (by decide) ⟨_, rfl, rfl⟩
 
 end Algobra.C17Extra
